@@ -1,9 +1,167 @@
 /-
-  QEModel.C11 — executable model for property C11 (stub; to be filled in).
+  QEModel.C11 — Lemke's algorithm for the linear complementarity problem.
+  Mirrors quantecon/optimize/lcp_lemke.py (`lcp_lemke`, `_initialize_tableau`,
+  `_get_solution`) on top of QEModel.Pivot (`_pivoting`, `_lex_min_ratio_test`).
+
+  Inputs are total functions (`Mm i j`, `q i`, `d i`, read only for indices
+  below `n`); the tableau is an `M α` of shape `n × (2n+2)` with the column
+  order of the code: `w` (0..n-1), `z` (n..2n-1), `z0` (2n), right-hand side
+  (2n+1); the basis is the function `row ↦ basic variable`.
 -/
 import QEModel.Base
+import QEModel.Pivot
 namespace QE.C11
+open QE QE.Pivot
 
-def handle (_toks : List String) : String := "bad-op"
+variable {α : Type} [Zero α] [One α] [Add α] [Sub α] [Mul α] [Div α] [Neg α] [LT α] [LE α]
+  [DecidableLT α] [DecidableLE α] [BEq α]
+
+/-- `_initialize_tableau` (lcp_lemke.py 239-253): `[ I | -M | -d | q ]`. -/
+def initTableau (n : Nat) (Mm : Nat → Nat → α) (q d : Nat → α) : M α :=
+  M.tab n (2 * n + 2) fun i j =>
+    if j < n then (if j = i then 1 else 0)
+    else if j < 2 * n then - Mm i (j - n)
+    else if j = 2 * n then - d i
+    else q i
+
+/-- `basis[i] = i` (lcp_lemke.py 255-256) -/
+def initBasis : Nat → Nat := fun i => i
+
+/-- one pass of the body of `for i in range(1, n)` (lcp_lemke.py 149-153), state
+    `(pivrow, ratio_min)` — the code **as it is now** (`ratio_min = ratio`). -/
+def firstStep (q d : Nat → α) (tolDiff : α) (st : Nat × α) (i : Nat) : Nat × α :=
+  let ratio := q i / d i
+  if ratio ≤ st.2 + tolDiff then (i, ratio) else st
+
+/-- lcp_lemke.py 147-153: the hand-written first ratio test. -/
+def firstPivotRow (n : Nat) (q d : Nat → α) (tolDiff : α) : Nat :=
+  ((List.range' 1 (n - 1)).foldl (firstStep q d tolDiff) (0, q 0 / d 0)).1
+
+/-- the loop body before the repair (`ratio = ratio_min`: the running minimum is
+    never updated). Kept only to document why the repair was needed. -/
+def firstStepBuggy (q d : Nat → α) (tolDiff : α) (st : Nat × α) (i : Nat) : Nat × α :=
+  let ratio := q i / d i
+  if ratio ≤ st.2 + tolDiff then (i, st.2) else st
+
+def firstPivotRowBuggy (n : Nat) (q d : Nat → α) (tolDiff : α) : Nat :=
+  ((List.range' 1 (n - 1)).foldl (firstStepBuggy q d tolDiff) (0, q 0 / d 0)).1
+
+/-- `basis[pivrow] = pivcol` -/
+def setBasis (basis : Nat → Nat) (r v : Nat) : Nat → Nat := fun i => if i = r then v else basis i
+
+/-- complement of a variable `< 2n` (lcp_lemke.py 181-184): `w_i ↔ z_i` -/
+def complement (n v : Nat) : Nat := if v < n then v + n else v - n
+
+/-- result of the main loop: tableau, basis, status, num_iter -/
+structure LoopOut (α : Type) where
+  T : M α
+  basis : Nat → Nat
+  status : Nat
+  numIter : Nat
+
+/-- `while num_iter < max_iter:` (lcp_lemke.py 162-184); `fuel = max_iter - num_iter`.
+    status 1: fuel exhausted, 2: no pivot row (ray), 0: the artificial variable `2n` left. -/
+def lemkeLoop (n : Nat) (tolPiv tolDiff : α) : Nat → M α → (Nat → Nat) → Nat → Nat → LoopOut α
+  | 0, T, basis, _, it => ⟨T, basis, 1, it⟩
+  | fuel + 1, T, basis, pivcol, it =>
+    let fr := lexMinRatio T pivcol 0 tolPiv tolDiff
+    if fr.1 = false then ⟨T, basis, 2, it⟩
+    else
+      let pivrow := fr.2
+      let T' := pivot T pivcol pivrow
+      let leaving := basis pivrow
+      let basis' := setBasis basis pivrow pivcol
+      if leaving = 2 * n then ⟨T', basis', 0, it + 1⟩
+      else lemkeLoop n tolPiv tolDiff fuel T' basis' (complement n leaving) (it + 1)
+
+/-- `z[k] = v` -/
+def setVec (z : Nat → α) (k : Nat) (v : α) : Nat → α := fun j => if j = k then v else z j
+
+/-- `_get_solution` (lcp_lemke.py 284-289) as the function `j ↦ z[j]` -/
+def getSolution (n : Nat) (T : M α) (basis : Nat → Nat) : Nat → α :=
+  (List.range n).foldl (fun z i =>
+    if n ≤ basis i ∧ basis i < 2 * n then setVec z (basis i - n) (T.get i (T.nc - 1)) else z)
+    (fun _ => 0)
+
+/-- state after lcp_lemke.py 141-157: initial tableau, first pivot on the
+    artificial column in row `firstPivotRow` -/
+def firstPivot (n : Nat) (Mm : Nat → Nat → α) (q d : Nat → α) (tolDiff : α) : M α × (Nat → Nat) × Nat :=
+  let T0 := initTableau n Mm q d
+  let r := firstPivotRow n q d tolDiff
+  (pivot T0 (2 * n) r, setBasis initBasis r (2 * n), r + n)
+
+/-- the non-trivial branch of `lcp_lemke` up to the end of the loop -/
+def lemkeRun (n : Nat) (Mm : Nat → Nat → α) (q d : Nat → α) (maxIter : Nat) (tolPiv tolDiff : α) :
+    LoopOut α :=
+  let fp := firstPivot n Mm q d tolDiff
+  lemkeLoop n tolPiv tolDiff (maxIter - 1) fp.1 fp.2.1 fp.2.2 1
+
+/-- `(q >= 0).all()` -/
+def trivialExit (n : Nat) (q : Nat → α) : Bool := (List.range n).all fun i => decide (0 ≤ q i)
+
+structure LCPResult (α : Type) where
+  z : Nat → α
+  success : Bool
+  status : Nat
+  numIter : Nat
+  /-- final basis (observable through the `basis=` argument); `none` on the trivial exit -/
+  basis : Option (Nat → Nat)
+
+/-- `lcp_lemke(M, q, d, max_iter, piv_options)` -/
+def lcpLemke (n : Nat) (Mm : Nat → Nat → α) (q d : Nat → α) (maxIter : Nat) (tolPiv tolDiff : α) :
+    LCPResult α :=
+  if trivialExit n q then ⟨fun _ => 0, true, 0, 0, none⟩
+  else
+    let o := lemkeRun n Mm q d maxIter tolPiv tolDiff
+    ⟨getSolution n o.T o.basis, o.status == 0, o.status, o.numIter, some o.basis⟩
+
+/-! ### line protocol -/
+
+def showResult (sh : α → String) (n : Nat) (r : LCPResult α) : String :=
+  "success=" ++ showBool r.success ++ " status=" ++ toString r.status ++
+  " num_iter=" ++ toString r.numIter ++
+  " basis=" ++ (match r.basis with
+    | none => "-"
+    | some b => showList toString ((List.range n).map b)) ++
+  " z=" ++ showList sh ((List.range n).map r.z)
+
+instance : Zero Float := ⟨0.0⟩
+instance : One Float := ⟨1.0⟩
+
+def fnOfList {β : Type} [Zero β] (l : List β) : Nat → β := fun i => l.getD i 0
+def fnOfMat {β : Type} [Zero β] (l : List (List β)) : Nat → Nat → β := fun i j => (l.getD i []).getD j 0
+
+def wellShaped {β : Type} (n : Nat) (Mm : List (List β)) (q d : List β) : Bool :=
+  Mm.length == n && Mm.all (fun r => r.length == n) && q.length == n && d.length == n
+
+def handle (toks : List String) : String :=
+  match toks with
+  | "lemke" :: r =>
+    -- exact reference: Rat, tolerances given (0 for the theorems' setting)
+    match kvNat r "n", kvRatMat r "M", kvRats r "q", kvRats r "d", kvNat r "maxiter",
+          kvRat r "tolpiv", kvRat r "toldiff" with
+    | some n, some Mm, some q, some d, some mi, some tp, some td =>
+      if wellShaped n Mm q d then
+        showResult showRat n (lcpLemke n (fnOfMat Mm) (fnOfList q) (fnOfList d) mi tp td)
+      else "bad-op"
+    | _, _, _, _, _, _, _ => "bad-op"
+  | "lemkef" :: r =>
+    -- IEEE doubles, the code's tolerances passed as bit patterns
+    match kvNat r "n", kvFloatMat r "M", kvFloats r "q", kvFloats r "d", kvNat r "maxiter",
+          (kv r "tolpiv").bind parseFloat?, (kv r "toldiff").bind parseFloat? with
+    | some n, some Mm, some q, some d, some mi, some tp, some td =>
+      if wellShaped n Mm q d then
+        showResult showFloatBits n (lcpLemke n (fnOfMat Mm) (fnOfList q) (fnOfList d) mi tp td)
+      else "bad-op"
+    | _, _, _, _, _, _, _ => "bad-op"
+  | "firstrow" :: r =>
+    match kvNat r "n", kvRats r "q", kvRats r "d", kvRat r "toldiff" with
+    | some n, some q, some d, some td =>
+      if q.length == n && d.length == n && n ≥ 1 then
+        toString (firstPivotRow n (fnOfList q) (fnOfList d) td) ++ " " ++
+        toString (firstPivotRowBuggy n (fnOfList q) (fnOfList d) td)
+      else "bad-op"
+    | _, _, _, _ => "bad-op"
+  | _ => "bad-op"
 
 end QE.C11
